@@ -22,6 +22,7 @@ import Drivers.Collapse
 import Drivers.Quality
 import Drivers.Unit
 import Drivers.Kexact
+import Drivers.PartMeshb
 
 /-! `refdrv <driver> [args]` : dispatch to a line-protocol driver. One match arm per driver, on one line. -/
 
@@ -49,6 +50,7 @@ def main (args : List String) : IO UInt32 := do
   | "quality" :: rest => Drivers.Quality.run rest
   | "unit" :: rest => Drivers.Unit.run rest
   | "kexact" :: rest => Drivers.Kexact.run rest
+  | "partmeshb" :: rest => Drivers.PartMeshb.run rest
   | _ =>
     IO.eprintln s!"refdrv: unknown driver {args}"
     return 2
